@@ -117,3 +117,135 @@ theorem pRedFin_last (ratio w bw ek : Nat) (hr : 0 < ratio) (x : Beat) : pRedFin
   simp [pRedFin]; left; omega
 
 end Gatery.C16
+
+namespace Gatery.C16
+
+/-! ### the packet-aware `widthExtend` (Packet.h, with the repaired sop handler) -/
+section PExt
+variable {α β δ : Type} (ratio : Nat) (d0 : δ) (slotOf : α → δ) (isEop isSop : α → Bool) (empOf : α → Nat)
+  (start step emod : Nat) (mk : List δ → Bool → Nat → α → β)
+
+/-- the registers agree with the specification's state after the accepted beats, except for the slot the counter points
+    at: the stage rewrites that slot in every cycle with whatever is at its input -/
+def PExtJ (s τ : PExtS δ) : Prop :=
+  s.cnt = τ.cnt ∧ s.sopF = τ.sopF ∧ s.empR = τ.empR ∧ ∀ d, s.slots.set s.cnt d = τ.slots.set s.cnt d
+
+def tWidthExtendP : TStep (widthExtendP ratio d0 slotOf isEop isSop empOf start step emod mk)
+    (pExtSpec ratio d0 slotOf isEop isSop empOf start step emod mk) where
+  J := fun s τ _ => PExtJ s τ
+  ahead := fun _ _ => []
+  init_J := fun _ => ⟨rfl, rfl, rfl, fun _ => rfl⟩
+  init_ahead := fun _ => rfl
+  step_J := fun s τ c x r x' hJ _ => by
+    rcases s with ⟨cnt, slots, sopF, empR⟩; rcases τ with ⟨cnt', slots', sopF', empR'⟩; rcases x with ⟨xv, xd⟩
+    obtain ⟨h1, h2, h3, h4⟩ := hJ
+    simp only at h1 h2 h3 h4
+    subst h1; subst h2; subst h3
+    show PExtJ _ _
+    dsimp only [widthExtendP, pExtSpec]
+    have hs := h4 (slotOf xd)
+    rcases Bool.eq_false_or_eq_true ((cnt + 1 == ratio) || isEop xd) with hfin | hfin <;> cases xv <;> cases r <;>
+      simp only [hfin, Bool.true_and, Bool.false_and, Bool.false_eq_true, ↓reduceIte, Bool.not_true, Bool.not_false, Bool.and_true, Bool.and_false] <;>
+      refine ⟨rfl, rfl, rfl, fun d => ?_⟩ <;> simp only [List.set_set, hs, h4]
+  move := fun s τ c x r x' hJ _ => by
+    rcases s with ⟨cnt, slots, sopF, empR⟩; rcases τ with ⟨cnt', slots', sopF', empR'⟩; rcases x with ⟨xv, xd⟩
+    obtain ⟨h1, h2, h3, h4⟩ := hJ
+    simp only at h1 h2 h3 h4
+    subst h1; subst h2; subst h3
+    dsimp only [widthExtendP, pExtSpec]
+    have hs := h4 (slotOf xd)
+    rcases Bool.eq_false_or_eq_true ((cnt + 1 == ratio) || isEop xd) with hfin | hfin <;> cases xv <;> cases r <;> simp [hfin, beatIf, hs]
+  offer := fun s τ c x hJ => by
+    rcases s with ⟨cnt, slots, sopF, empR⟩; rcases τ with ⟨cnt', slots', sopF', empR'⟩; rcases x with ⟨xv, xd⟩
+    obtain ⟨h1, h2, h3, h4⟩ := hJ
+    simp only at h1 h2 h3 h4
+    subst h1; subst h2; subst h3
+    dsimp only [widthExtendP, pExtSpec]
+    have hs := h4 (slotOf xd)
+    rcases Bool.eq_false_or_eq_true ((cnt + 1 == ratio) || isEop xd) with hfin | hfin <;> cases xv <;> simp [hfin, beatIf, Fwd.off, hs]
+  hold := fun s τ c x r c' x' hJ hv hr' hl => by
+    rcases s with ⟨cnt, slots, sopF, empR⟩; rcases x with ⟨xv, xd⟩; rcases x' with ⟨xv', xd'⟩
+    dsimp only [widthExtendP] at hv hl ⊢
+    simp only [Bool.and_eq_true] at hv
+    subst hr'
+    have hin := hl hv.1 (by simp [hv.2])
+    obtain ⟨h1, h2⟩ := hin
+    have h1' : xv' = true := h1
+    have h2' : xd' = xd := h2
+    subst h1'; subst h2'
+    simp [hv.1, hv.2, List.set_set]
+
+/-- Packet.h `widthExtend` (repaired sop handler) implements its list specification for every ratio, slot content, eop/sop
+    predicate and empty arithmetic: groups end after `ratio` beats or at eop, the wide beat carries sop iff a beat of its
+    group does, and the output keeps the interface law (in particular sop is stable while the wide beat is offered) -/
+theorem good_widthExtendP :
+    Good (widthExtendP ratio d0 slotOf isEop isSop empOf start step emod mk)
+      (pExtSpec ratio d0 slotOf isEop isSop empOf start step emod mk) okTrue :=
+  (tWidthExtendP ratio d0 slotOf isEop isSop empOf start step emod mk).good
+
+end PExt
+
+end Gatery.C16
+
+namespace Gatery.C16
+
+/-! ### packet framing: sop exactly on the first beat after an eop -/
+
+/-- `framedFrom inPkt l`: every beat of `l` carries sop iff it is the first of a packet (`inPkt` = the beat before was no eop) -/
+def framedFrom : Bool → List Beat → Bool
+  | _, [] => true
+  | inPkt, b :: t => (b.sop == !inPkt) && framedFrom (!b.eop) t
+
+section
+variable (ratio w bw ek ew : Nat)
+
+local notation "PX" => pExtSpec ratio ((0 : Nat), (0 : Nat)) extSlot Beat.eop Beat.sop Beat.emp (pExtStart ratio w ek) (emptyUnit ek w) (pExtMod ratio w ek ew) (pExtMk w bw)
+
+/-- **widthExtend keeps packets framed**: if the accepted narrow beats are framed, so are the wide beats the specification
+    prescribes (and by `widthExtend_preserves` the wide beats the stage emits are exactly those). Invariant: at a group
+    boundary input and output are in the same framing state; inside a group the input is inside a packet and the
+    collected sop flag says whether the output still owes a sop. -/
+theorem pExt_framed_aux (l : List Beat) : ∀ (s : PExtS (Nat × Nat)) (p q : Bool),
+    ((s.cnt = 0 ∧ q = p ∧ s.sopF = false) ∨ (0 < s.cnt ∧ p = true ∧ s.sopF = !q)) →
+    framedFrom p l = true → framedFrom q (Trans.runFrom PX s l) = true := by
+  induction l with
+  | nil => intro s p q _ _; rfl
+  | cons x t ih =>
+    intro s p q hinv hf
+    simp only [framedFrom, Bool.and_eq_true, beq_iff_eq] at hf
+    obtain ⟨hsop, ht⟩ := hf
+    simp only [Trans.runFrom]
+    rcases Bool.eq_false_or_eq_true ((s.cnt + 1 == ratio) || x.eop) with hfin | hfin
+    · -- the group ends with `x`
+      have hstep : (PX).step s x = (⟨0, s.slots.set s.cnt (extSlot x), false, pExtStart ratio w ek⟩,
+          [pExtMk w bw (s.slots.set s.cnt (extSlot x)) (s.sopF || x.sop) ((s.empR + x.emp) % pExtMod ratio w ek ew) x]) := by
+        simp only [pExtSpec, hfin, ↓reduceIte]
+      rw [hstep]
+      simp only [List.singleton_append, framedFrom, Bool.and_eq_true, beq_iff_eq]
+      refine ⟨?_, ih _ (!x.eop) (!x.eop) (Or.inl ⟨rfl, rfl, rfl⟩) (by simpa [pExtMk] using ht)⟩
+      show (s.sopF || x.sop) = !q
+      rcases hinv with ⟨_, hq, hs⟩ | ⟨_, hp, hs⟩
+      · rw [hs, hsop, hq]; simp
+      · rw [hs, hsop, hp]; simp
+    · have hfin' : ((s.cnt + 1 == ratio) || x.eop) = false := hfin
+      have heop : x.eop = false := by
+        cases h : x.eop
+        · rfl
+        · rw [h] at hfin'; simp at hfin'
+      have hstep : (PX).step s x = (⟨s.cnt + 1, s.slots.set s.cnt (extSlot x), s.sopF || x.sop,
+          (s.empR + pExtMod ratio w ek ew - emptyUnit ek w % pExtMod ratio w ek ew) % pExtMod ratio w ek ew⟩, []) := by
+        simp only [pExtSpec, hfin', Bool.false_eq_true, ↓reduceIte]
+      rw [hstep]
+      simp only [List.nil_append]
+      refine ih _ (!x.eop) q (Or.inr ⟨Nat.succ_pos _, by simp [heop], ?_⟩) ht
+      show (s.sopF || x.sop) = !q
+      rcases hinv with ⟨_, hq, hs⟩ | ⟨_, hp, hs⟩
+      · rw [hs, hsop, hq]; simp
+      · rw [hs, hsop, hp]; simp
+
+theorem pExt_framed (l : List Beat) (h : framedFrom false l = true) : framedFrom false (Trans.run PX l) = true :=
+  pExt_framed_aux ratio w bw ek ew l _ false false (Or.inl ⟨rfl, rfl, rfl⟩) h
+
+end
+
+end Gatery.C16
